@@ -142,7 +142,7 @@ def cases(ctx):
         ("path.int_part", "Value.equal_to(DataPath('a', i))", [("i", "int")]),
         ("path.nonconcrete", "Value.in_(DataPath('l', ListValue()))", []),
         ("path.mapvalue", "Value.in_(DataPath(MapValue()))", []),
-        ("path.combined_part", "Value.in_(DataPath('a', MapValue(key=Key.not_equal_to(s), value=Value.is_instance(int))))", [("s", "str")]),
+        ("path.combined_part", "Value.in_(DataPath('a', MapValue(key=Key.not_equal_to('k'), value=Value.greater_than(i))))", [("i", "int")]),
         ("path.length", "Value.length.equal_to(DataPath('a', s).length())", [("s", "str")]),
         ("path.map_keys", "Value.in_(DataPath('a').map_keys())", []),
         ("path.first", "Value.equal_to(DataPath('l', ListValue()).first())", []),
